@@ -26,6 +26,7 @@
 #include <sys/wait.h>
 #include <signal.h>
 #include <fcntl.h>
+#include <malloc.h>
 
 static const uint64_t SENT = 0xA5A5A5A5A5A5A5A5ULL;
 #ifdef HARNESS_EXACT
@@ -46,7 +47,7 @@ struct Buf {
 #ifdef HARNESS_EXACT
         // place the region so that it ENDS at the end of an exact malloc block
         free(base);
-        base = (uint64_t *)malloc(n ? n * 8 : 1);
+        base = (uint64_t *)memalign(64, n ? n * 8 : 1);   // exact size, aligned for the _a kernels
         p = base;
 #else
         for (size_t i = 0; i < tot; i++) base[i] = SENT;
